@@ -358,6 +358,9 @@ def config_branch(atoms):
 
 def eval_bool(expr, atom):
     """three-valued evaluation of a boolean expression: *atom(leaf expr)* -> True/False/None"""
+    if isinstance(expr, ast.IfExp):
+        from sa.variance import boolify
+        return eval_bool(boolify(expr), atom)
     if isinstance(expr, ast.BoolOp):
         vals = [eval_bool(v, atom) for v in expr.values]
         if isinstance(expr.op, ast.And):
@@ -498,8 +501,28 @@ def expander(fnode, only=None):
         if isinstance(n, ast.If) and n.orelse:
             for nm in [k for k, c in counts.items() if c >= 2 and k not in env]:
                 got = phi_of(n, nm)
-                if got is not None and got[1] == counts[nm]:
-                    env[nm] = got[0]
+                if got is None:
+                    continue
+                extra = counts[nm] - got[1]
+                if extra > 0:
+                    # further assignments are fine if they are dead: plain statements of the same
+                    # block before the if-tree, which re-assigns the name on every branch
+                    par = getattr(n, '_parent', None)
+                    sibs = None
+                    for fld in ('body', 'orelse', 'finalbody'):
+                        blk_ = getattr(par, fld, None)
+                        if isinstance(blk_, list) and any(x is n for x in blk_):
+                            sibs = blk_
+                    if sibs is None:
+                        continue
+                    i = [k for k, x in enumerate(sibs) if x is n][0]
+                    dead = [x for x in sibs[:i] if isinstance(x, ast.Assign) and len(x.targets) == 1 and
+                            is_name(x.targets[0], nm)]
+                    reads_between = any(isinstance(y, ast.Name) and y.id == nm and isinstance(y.ctx, ast.Load)
+                                        for x in sibs[:i] for y in ast.walk(x))
+                    if len(dead) != extra or reads_between:
+                        continue
+                env[nm] = got[0]
 
     def expand(e):
         import copy
@@ -925,3 +948,98 @@ def reaching_defs(g, nid, name):
             continue
         work.extend(p for p, _k in g.pred[n])
     return out
+
+
+def symbolic_value(fnode, at_stmt, var):
+    """The value of the local *var* when control reaches statement *at_stmt*, as ONE expression over
+    the function's inputs: the straight-line / if-structured code before *at_stmt* is executed
+    symbolically (every ``name = expr`` is substituted forward, an ``if`` merges the two branch values
+    into a conditional expression).  None when *var* may be assigned inside a loop / try / with on
+    the way, or is not assigned at all.  This is abstract interpretation of assignments only -- no
+    call is evaluated, nothing is run."""
+    import copy
+
+    class Sub(ast.NodeTransformer):
+        def __init__(self, env):
+            self.env = env
+
+        def visit_Name(self, n):
+            if isinstance(n.ctx, ast.Load) and n.id in self.env and self.env[n.id] is not None:
+                return ast_copy(self.env[n.id])
+            return n
+
+        def visit_Lambda(self, n):
+            return n
+
+    def sub(e, env):
+        new = Sub(env).visit(ast_copy(e))
+        ast.fix_missing_locations(new)
+        return new
+
+    def assigned_in(st):
+        return {x.id for x in ast.walk(st) if isinstance(x, ast.Name) and
+                isinstance(x.ctx, (ast.Store, ast.Del))}
+
+    class Found(Exception):
+        pass
+    result = {}
+
+    def run(stmts, env):
+        """returns env after the block (or raises Found when at_stmt is reached)"""
+        for st in stmts:
+            if st is at_stmt:
+                result['env'] = env
+                raise Found()
+            if isinstance(st, ast.Assign) and len(st.targets) == 1 and isinstance(st.targets[0], ast.Name):
+                env = dict(env)
+                env[st.targets[0].id] = sub(st.value, env)
+            elif isinstance(st, ast.If):
+                contains = any(x is at_stmt for x in ast.walk(st))
+                if contains:
+                    # walk into the branch that holds the use site
+                    for blk in (st.body, st.orelse):
+                        if any(x is at_stmt for b in blk for x in ast.walk(b)):
+                            run(blk, env)
+                    return env
+                test = sub(st.test, env)
+                e1 = run(st.body, dict(env))
+                e2 = run(st.orelse, dict(env))
+                env = dict(env)
+                for k in set(e1) | set(e2):
+                    a, b = e1.get(k), e2.get(k)
+                    if a is None or b is None:
+                        env[k] = None if (k in assigned_in(st)) else env.get(k)
+                    elif a is b or norm(a) == norm(b):
+                        env[k] = a
+                    else:
+                        env[k] = ast.fix_missing_locations(ast.IfExp(test=ast_copy(test), body=a, orelse=b))
+            else:
+                if any(x is at_stmt for x in ast.walk(st)):
+                    # the use site sits inside a loop / try / with: values flow in unchanged unless the
+                    # construct itself assigns them
+                    killed = assigned_in(st)
+                    env = {k: (None if k in killed else v) for k, v in env.items()}
+                    for fld in ('body', 'orelse', 'finalbody'):
+                        blk = getattr(st, fld, None)
+                        if isinstance(blk, list) and any(x is at_stmt for b in blk for x in ast.walk(b)):
+                            run(blk, env)
+                    for h in getattr(st, 'handlers', []) or []:
+                        if any(x is at_stmt for b in h.body for x in ast.walk(b)):
+                            run(h.body, env)
+                    return env
+                killed = assigned_in(st)
+                if killed:
+                    env = dict(env)
+                    for k in killed:
+                        env[k] = None
+        return env
+    try:
+        run(fnode.body, {})
+    except Found:
+        v = result['env'].get(var)
+        if v is not None:
+            for p in ast.walk(v):
+                for c in ast.iter_child_nodes(p):
+                    c._parent = p
+        return v
+    return None
